@@ -449,13 +449,14 @@ class Engine:
 
     # ---------------------------------------------------------- obligations
     def oblige(self, name, goal, props=None, site=None, detail=None):
-        """Record and discharge `pc => goal`; afterwards goal is assumed."""
+        """Record and discharge `pc => goal`; afterwards goal is assumed (unless it failed)."""
         p = self.path
         key = (tuple(p.decisions), p.n_obl, name)
         p.n_obl += 1
         props = frozenset(props) if props is not None else self.props_default
         if key in self.cache:
-            self.assume(goal) if not isinstance(goal, bool) else None
+            if self.cache[key].status != 'sat' and not isinstance(goal, bool):
+                self.assume(goal)
             return self.cache[key].status == 'unsat'
         if isinstance(goal, bool):
             goal = z3.BoolVal(goal)
@@ -467,7 +468,11 @@ class Engine:
                         path=list(p.decisions), detail=detail)
         self.cache[key] = ob
         self.report.obligations.append(ob)
-        self.assume(goal)
+        # assert-then-assume -- except after a FAILED obligation: the violating states stay on the path, so that
+        # obligations further down (which may belong to other properties) are still judged in them instead of
+        # becoming vacuously true
+        if status != 'sat':
+            self.assume(goal)
         return status == 'unsat'
 
     def _discharge(self, goal):
